@@ -58,9 +58,9 @@ def _set_current(ctx):
 
 def _realval(x) -> z3.ArithRef:
     if isinstance(x, (bool, np.bool_)):
-        return z3.RealVal(int(x))
+        return z3.IntVal(int(x))
     if isinstance(x, (int, np.integer)):
-        return z3.RealVal(int(x))
+        return z3.IntVal(int(x))
     if isinstance(x, Fraction):
         return z3.RealVal(str(x))
     x = float(x)
@@ -396,6 +396,16 @@ class SymBool:
     def __or__(self, o): return SymBool(z3.Or(self.t, _b(o)))
     def __ror__(self, o): return SymBool(z3.Or(_b(o), self.t))
     def __invert__(self): return SymBool(z3.Not(self.t))
+
+    # arithmetic: a bool is the integer 0/1 (as in ``1 - 2 * s.startswith("-")``)
+    def as_int(self): return Sym(z3.If(self.t, z3.IntVal(1), z3.IntVal(0)))
+    def __mul__(self, o): return self.as_int() * o
+    def __rmul__(self, o): return o * self.as_int()
+    def __add__(self, o): return self.as_int() + o
+    def __radd__(self, o): return o + self.as_int()
+    def __sub__(self, o): return self.as_int() - o
+    def __rsub__(self, o): return o - self.as_int()
+    def __neg__(self): return -self.as_int()
     def __eq__(self, o): return SymBool(self.t == _b(o))
     def __ne__(self, o): return SymBool(self.t != _b(o))
     def __hash__(self): return id(self)
@@ -544,6 +554,13 @@ class Ctx:
         if hi is not None:
             self.assume(s <= hi)
         return s
+
+    def bool(self, name, default=False):
+        if self.mode == "conc":
+            return bool(self.model.get(name, default))
+        v = z3.Bool(name)
+        self.vars[name] = v
+        return SymBool(v)
 
     def real_array(self, name, shape, **kw):
         from .symnp import SymArray
@@ -781,6 +798,10 @@ class Ctx:
 
 
 def _model_value(val):
+    if z3.is_true(val):
+        return True
+    if z3.is_false(val):
+        return False
     if z3.is_int_value(val):
         return val.as_long()
     if z3.is_rational_value(val):
